@@ -200,7 +200,7 @@ def resolve_arg(u, arg):
     return "zz-absent", "absent"
 
 
-def resolve_operand(u, enforce, typed, m, operand):
+def resolve_operand(u, enforce, typed, m, operand, keep_payload=False):
     kind, pairs = operand
     seen, items = set(), []
     for ki, p in pairs:
@@ -208,7 +208,7 @@ def resolve_operand(u, enforce, typed, m, operand):
             continue
         seen.add(ki)
         k = u.key(ki)
-        if (p == "same" or enforce) and k in m:
+        if (p == "same" or (enforce and not keep_payload)) and k in m:
             items.append(m[k])
         else:
             items.append(u.item(ki, 0 if p == "same" else p))
@@ -361,7 +361,10 @@ def run_case(ctx, case):
                 kind = op[1][0]
                 if kind == "set" and not u.hashable and op[1][1]:
                     continue  # (a built-in set cannot hold unhashable items - but the empty built-in set is a legal operand)
-                other, oitems = resolve_operand(u, enforce, typed, m, op[1])
+                # |= and ^= ADD items: under enforcement an unequal item under an existing key makes the whole operation raise
+                # ValueError "and changes nothing" - so these two also get operands whose payloads differ
+                clash_ok = enforce and name in ("ior", "ixor") and kind == "ks"
+                other, oitems = resolve_operand(u, enforce, typed, m, op[1], keep_payload=clash_ok)
                 tag = f"{name}:{kind}"
                 om = {u.model_key(x): x for x in oitems}
                 shared = set(m) & set(om)
@@ -444,6 +447,19 @@ def run_case(ctx, case):
                         return
                 else:
                     keep = s
+                    clash = clash_ok and any(k in m and m[k] != x for k, x in om.items()) and (name == "ior" or False)
+                    if clash:
+                        try:
+                            s |= other
+                        except ValueError:
+                            if not check_obs(tag, "changed_on_raise"):
+                                return
+                            ctx.count(f"op:{tag}:raise")
+                            continue
+                        ctx.fail(f"{tag}:missing_raise", case, f"|= with an unequal item under an existing key (enforced) did not raise (A={m!r}, B={oitems!r})")
+                        return
+                    if name == "ixor" and clash_ok and any(k in m and m[k] != x for k, x in om.items()):
+                        continue  # (for ^= a shared key means removal; whether an unequal payload counts as "the same member" is the documented grey zone)
                     if name == "ior":
                         s |= other
                         for k, x in om.items():
